@@ -151,12 +151,25 @@ def Dflt.row1 : Dflt → Val
   | .scalar x => [x]
   | .vector l => l
 
+/-- a numpy storage dtype, as far as `Type.dtype` distinguishes them: the value tuple of the enum member (its first entry is the
+Python type itself: bool / int / float / complex) or the fixed-width unicode dtype `"<U32"` -/
+inductive DType where
+  | ofType (t : Ty)
+  | u32
+  deriving DecidableEq, Repr
+
+/-- what a storage of that dtype can hold without loss: values of the type itself (strings: up to 32 characters — ASSUMPTIONS) -/
+def DType.holds : DType → Ty → Bool
+  | .ofType t, t' => decide (t = t' ∧ t ≠ .str)
+  | .u32, t' => decide (t' = .str)
+
 /-! container -/
 
 /-- the instance attributes of a `DataContainer` -/
 structure Cont where
   data : List Nat := []                   -- `_data` (the elements; only their number matters to the attributes)
   attr : List (String × Self) := []       -- `_attr` (insertion-ordered dict)
+  id : String := ""                       -- `id` (a label, used in messages only)
   deriving Inhabited
 
 def attrMem (d : List (String × Self)) (name : String) : Bool := (d.lookup name).isSome
